@@ -544,44 +544,53 @@ Definition ends_with_slash (s : bytes) : bool :=
 Definition is_abs (s : bytes) : bool :=
   match s with c :: _ => N.eqb c SL | [] => false end.
 
-(* stack: current node first, the root last.  Returns the final stack. *)
-Fixpoint walk (fuel : nat) (bottom : list tree) (stack : list tree) (comps : list bytes)
-    (follow_last : bool) : option (list tree) :=
-  match fuel with
-  | O => None
-  | S f =>
-    match comps with
-    | [] => Some stack
-    | c :: rest =>
-      match stack with
-      | Dir es :: up =>
-        if bytes_eqb c [DOT] then walk f bottom stack rest follow_last
-        else if bytes_eqb c [DOT; DOT] then
-          walk f bottom (match up with [] => stack | _ => up end) rest follow_last
-        else
-          match lookup c es with
-          | None => None
-          | Some (Link tgt) =>
-            if is_nil rest && negb follow_last then Some (Link tgt :: stack)
-            else if is_nil tgt then None
-            else walk f bottom (if is_abs tgt then bottom else stack)
-                      (split_path tgt [] ++ rest) follow_last
-          | Some node => walk f bottom (node :: stack) rest follow_last
-          end
-      | _ => None
-      end
+(* Path resolution.  A state is the stack of nodes from the current node (first)
+   up to the root (last).  One component is resolved by [stepf]: "." stays, ".."
+   pops (the root is its own parent), a name is looked up in the current
+   directory; a symbolic link is resolved completely by resolving the components
+   of its target (relative to the directory holding the link, or to the root for
+   an absolute target), nested at most LINK_FUEL deep (ELOOP beyond); with
+   [follow = false] a link is returned unresolved (final component of lstat). *)
+Fixpoint stepf (fuel : nat) (follow : bool) (bottom : list tree) (st : option (list tree))
+    (c : bytes) : option (list tree) :=
+  match st with
+  | None => None
+  | Some stack =>
+    match stack with
+    | Dir es :: up =>
+      if bytes_eqb c [DOT] then Some stack
+      else if bytes_eqb c [DOT; DOT] then Some (match up with [] => stack | _ => up end)
+      else
+        match lookup c es with
+        | None => None
+        | Some (Link tgt) =>
+          if negb follow then Some (Link tgt :: stack)
+          else
+            match fuel with
+            | O => None
+            | S f =>
+              if is_nil tgt then None
+              else fold_left (stepf f true bottom) (split_path tgt [])
+                             (Some (if is_abs tgt then bottom else stack))
+            end
+        | Some node => Some (node :: stack)
+        end
+    | _ => None
     end
   end.
 
-Definition WALK_FUEL : nat := 300.
+Definition LINK_FUEL : nat := 40.
 
 Record world := mkWorld {
   w_root : tree;           (* the generated tree *)
   w_cwd : list bytes;      (* working directory, names of real directories from the root *)
   w_abs : bytes }.         (* absolute path of the root on disk, no trailing slash *)
 
+Definition follow_all (wd : world) (st : option (list tree)) (cs : list bytes) : option (list tree) :=
+  fold_left (stepf LINK_FUEL true [w_root wd]) cs st.
+
 Definition start_stack (wd : world) : option (list tree) :=
-  walk WALK_FUEL [w_root wd] [w_root wd] (w_cwd wd) true.
+  follow_all wd (Some [w_root wd]) (w_cwd wd).
 
 Fixpoint is_dir_prefix (p full : list bytes) : bool :=
   match p, full with
@@ -597,53 +606,98 @@ Fixpoint strip_comps (pre l : list bytes) : option (list bytes) :=
   | _ :: _, [] => None
   end.
 
-(* resolve a path string to a node; None = error (ENOENT, ENOTDIR, ELOOP).
-   Absolute paths: inside the generated tree they are resolved in it; proper
-   ancestors of the tree root are directories whose content is not modelled. *)
-Inductive res := RNode (t : tree) | RAncestor | RNone.
+(* where the resolution of a path string starts and which components remain.
+   Absolute paths inside the generated tree start at its root; proper ancestors
+   of the root are directories whose content is not modelled. *)
+Inductive base_res := BStart (st : option (list tree)) (cs : list bytes) | BAncestor | BNone.
 
-Definition resolve (wd : world) (path : bytes) : res :=
-  match path with
-  | [] => RNone
-  | _ =>
-    let comps := split_path path [] in
-    let trailing := ends_with_slash path in
-    let fin (st : option (list tree)) :=
-      match st with
-      | Some (t :: _) =>
-        match t with
-        | Dir _ => RNode t
-        | _ => if trailing then RNone else RNode t
-        end
-      | _ => RNone
-      end in
-    if is_abs path then
-      let root_comps := split_path (w_abs wd) [] in
-      match strip_comps root_comps comps with
-      | Some rel => fin (walk WALK_FUEL [w_root wd] [w_root wd] rel trailing)
-      | None => if is_dir_prefix comps root_comps then RAncestor else RNone
-      end
-    else
-      match start_stack wd with
-      | Some st => fin (walk WALK_FUEL [w_root wd] st comps trailing)
-      | None => RNone
-      end
+Definition base (wd : world) (p : bytes) : base_res :=
+  let comps := split_path p [] in
+  if is_abs p then
+    let root_comps := split_path (w_abs wd) [] in
+    match strip_comps root_comps comps with
+    | Some rel => BStart (Some [w_root wd]) rel
+    | None => if is_dir_prefix comps root_comps then BAncestor else BNone
+    end
+  else BStart (start_stack wd) comps.
+
+(* the path resolved as a directory path (every link followed) *)
+Definition dir_stack (wd : world) (p : bytes) : option (list tree) :=
+  match base wd p with
+  | BStart st cs => follow_all wd st cs
+  | _ => None
   end.
 
 Definition kind_of (t : tree) : kind :=
   match t with File => KFile | Dir _ => KDir | Link _ => KLink end.
 Definition is_dir_node (t : tree) : bool := match t with Dir _ => true | _ => false end.
 
-Definition tree_fs (wd : world) : fsys :=
-  mkFs (fun p => match resolve wd p with
-                 | RNode t => Some (kind_of t)
-                 | RAncestor => Some KDir
-                 | RNone => None
-                 end)
-       (fun p => match resolve wd (p ++ [SL]) with
-                 | RNode (Dir es) => Some (map (fun e => (fst e, is_dir_node (snd e))) es)
-                 | _ => None
-                 end).
+Definition tree_lstat (wd : world) (p : bytes) : option kind :=
+  match p with
+  | [] => None
+  | _ =>
+    match base wd p with
+    | BAncestor => Some KDir
+    | BNone => None
+    | BStart st cs =>
+      let trailing := ends_with_slash p in
+      let r := match cs with
+               | [] => st
+               | _ => stepf LINK_FUEL trailing [w_root wd] (follow_all wd st (removelast cs)) (last cs [])
+               end in
+      match r with
+      | Some (t :: _) =>
+        match t with
+        | Dir _ => Some KDir
+        | _ => if trailing then None else Some (kind_of t)
+        end
+      | _ => None
+      end
+    end
+  end.
+
+Definition tree_readdir (wd : world) (p : bytes) : option (list (bytes * bool)) :=
+  match p with
+  | [] => None
+  | _ =>
+    match dir_stack wd (p ++ [SL]) with
+    | Some (Dir es :: _) => Some (map (fun e => (fst e, is_dir_node (snd e))) es)
+    | _ => None
+    end
+  end.
+
+Definition tree_fs (wd : world) : fsys := mkFs (tree_lstat wd) (tree_readdir wd).
+
+(* well-formed trees (what a directory on disk is): entry names are distinct,
+   non-empty, slash-free and neither "." nor ".." *)
+Definition name_ok (n : bytes) : bool :=
+  negb (is_nil n) && negb (existsb (N.eqb SL) n) &&
+  negb (bytes_eqb n [DOT]) && negb (bytes_eqb n [DOT; DOT]).
+
+Fixpoint nodup_names (l : list bytes) : bool :=
+  match l with [] => true | x :: r => negb (mem x r) && nodup_names r end.
+
+Fixpoint wf_tree (t : tree) : bool :=
+  match t with
+  | Dir es =>
+    nodup_names (map fst es) && forallb (fun e => name_ok (fst e)) es &&
+    (fix all (l : list (bytes * tree)) : bool :=
+       match l with [] => true | e :: r => wf_tree (snd e) && all r end) es
+  | _ => true
+  end.
+
+Fixpoint height (t : tree) : nat :=
+  match t with
+  | Dir es =>
+    S ((fix mx (l : list (bytes * tree)) : nat :=
+          match l with [] => 0 | e :: r => Nat.max (height (snd e)) (mx r) end) es)
+  | _ => 0
+  end.
+
+(* the fuel the judge gives to glob: proved sufficient for well-formed trees
+   (C23_glob_fuel_sufficient) *)
+Definition fuel_of (wd : world) (segs : list seg) : nat :=
+  S (length segs * S (height (w_root wd)) + height (w_root wd)).
 
 (* ------------------------------------------------------------------ *)
 (* The oracle.  Expected = the set of paths accepted by the reference glob
@@ -699,7 +753,7 @@ Definition check_C23 (c : case) : bool :=
   | RGlob pat, ObsGlob l _ =>
     let segs := parse pat in
     if has_empty_lit segs then true else
-    match ref_pattern_glob FUEL fs segs with
+    match ref_pattern_glob (fuel_of (c_world c) segs) fs segs with
     | Some exp => multiset_eqb (map fst l) (map fst (dedup exp))
     | None => false
     end
@@ -707,7 +761,7 @@ Definition check_C23 (c : case) : bool :=
     match compile ps with
     | None => outcome_eqb o OTypeErr
     | Some g =>
-      match ref_pattern_glob FUEL fs (g_segs g) with
+      match ref_pattern_glob (fuel_of (c_world c) (g_segs g)) fs (g_segs g) with
       | Some exp => outcome_eqb o (filter_out type_ok_doc g (dedup exp))
       | None => false
       end
@@ -734,7 +788,7 @@ Definition corr_C23 (c : case) : bool :=
   | RGlob pat, ObsGlob l osegs =>
     let segs := parse pat in
     list_eqb seg_eqb segs osegs &&
-    match pattern_glob FUEL fs segs with
+    match pattern_glob (fuel_of (c_world c) segs) fs segs with
     | Some m => multiset_e_eqb l m
     | None => false
     end
@@ -742,7 +796,7 @@ Definition corr_C23 (c : case) : bool :=
     match compile ps with
     | None => outcome_eqb o OTypeErr
     | Some g =>
-      match doGlob FUEL fs g with
+      match doGlob (fuel_of (c_world c) (g_segs g)) fs g with
       | Some m => outcome_eqb o m
       | None => false
       end
@@ -750,5 +804,7 @@ Definition corr_C23 (c : case) : bool :=
   | _, _ => false
   end.
 
-Definition judge1 (c : case) : N := code (check_C23 c) (corr_C23 c).
+(* the harness must describe the directory it wrote by a well-formed tree *)
+Definition judge1 (c : case) : N :=
+  code (check_C23 c) (corr_C23 c && wf_tree (w_root (c_world c))).
 Definition judge := judge_with judge1.
